@@ -191,7 +191,8 @@ theorem inv_reachable (ops : List Op) : Inv (run good {} ops).1 := by
 
 /-- the source has that mechanism (regenerated on every run) -/
 theorem mech_objcache : Generated.CacheMech.objTransitive = true ∧ Generated.CacheMech.objViewsLinked = true ∧
-    Generated.CacheMech.objRefPosRegistered = true ∧ Generated.CacheMech.objFinalizeLinked = true := by decide
+    Generated.CacheMech.objRefPosRegistered = true ∧ Generated.CacheMech.objFinalizeLinked = true ∧
+    Generated.CacheMech.objSetattrPropagates = true := by decide
 
 /-! #### The tables of `_position.py` (regenerated from the `ast` on every run): who writes what -/
 
@@ -209,6 +210,15 @@ theorem entry_points_present :
     (⟨"PosBase", "__setattr__", true⟩ : Mutator) ∈ Generated.CacheMech.mutators := by decide
 
 open Midgard.ObjCache.Table in
+/-- the other in-place routes that can be intercepted are intercepted (5ae18f6): the ndarray methods `fill`, `sort`, `partition`,
+`put`, `setfield`, `byteswap` are overridden on `PosBase` and `__array_wrap__` (called by NumPy on the `out=` array of a ufunc)
+drops the caches when the array wrapped is the array itself — each of them clears first (`every_writer_clears`); removing one of
+the overrides is a failed obligation here -/
+theorem inplace_routes_intercepted :
+    ∀ m ∈ ["__array_wrap__", "fill", "sort", "partition", "put", "setfield", "byteswap"],
+      (⟨"PosBase", m, true⟩ : Mutator) ∈ Generated.CacheMech.mutators := by decide
+
+open Midgard.ObjCache.Table in
 /-- **Cache entries are keyed by what they depend on**: every store into a per-object `_cache` happens in a method whose only
 parameter besides `self` is (at most) the name of the target system — no entry is computed from another object handed in
 as an argument (such an entry could not be invalidated: the argument does not know the object as a dependent). -/
@@ -220,6 +230,14 @@ dependent of an attached `other` / `ref_pos`), except by `__setattr__` itself an
 theorem only_known_bypasses :
     Generated.CacheMech.attrWrites.filter AttrWrite.bypasses =
       [⟨"PosBase", "__setattr__", "key", "bypass"⟩, ⟨"PosBase", "clear_cache", "'_cache'", "bypass"⟩] := by decide
+
+/-- replacing or removing an attachment drops, in the model as in the code (9efe2d6), the caches of everything that depends on
+the object (here: the object itself, whatever it had cached) -/
+theorem setOther_replacing_clears (s : State) (p : Nat) (q : Option Nat) (po : Obj) (t : Nat) (hp : s.objs[p]? = some po)
+    (ht : po.other = some t) :
+    (step good s (.setOther p q)).1 =
+      (setOtherCore { s with objs := clearCaches s.objs (clearSet good s p) } p q).1 := by
+  simp [step, hp, ht]
 
 /-- the model's `setItem` / `setOther` do what `every_writer_clears` reads off the source: the caches of the changed object
 are dropped by the step itself (whatever was cached before) -/
@@ -375,3 +393,5 @@ end Midgard.Props.C08.PosVel
 #print axioms Midgard.Props.C08.PosVel.posvel_caching_invisible_from
 #print axioms Midgard.Props.C08.PosVel.posvel_caching_invisible
 #print axioms Midgard.Props.C08.mech_time_results_frozen
+#print axioms Midgard.Props.C08.Obj.setOther_replacing_clears
+#print axioms Midgard.Props.C08.Obj.inplace_routes_intercepted
